@@ -11,12 +11,12 @@ import (
 
 func init() {
 	register(&Property{
-		ID:        "C34",
-		Roots:     []string{"snap/channel", "overlord/snapstate"},
-		Technique: "return-value provenance with guarded flow points (SSA phi leaves + CFG must-pass gates) on channel.ParseVerbatim/Clean/Full/Resolve/ResolvePinned and snapstate.resolveChannel; sibling agreement on the component that classifies a name",
+		ID:          "C34",
+		Roots:       []string{"snap/channel", "overlord/snapstate"},
+		Technique:   "return-value provenance with guarded flow points (SSA phi leaves + CFG must-pass gates) on channel.ParseVerbatim/Clean/Full/Resolve/ResolvePinned and snapstate.resolveChannel; sibling agreement on the component that classifies a name",
 		Explanation: "Structural necessary conditions of 'channel names normalise consistently and a pinned track cannot be switched' (the algebraic laws themselves - idempotence of Parse/String, Full naming track and risk - are value-level and not decided): (R1) ResolvePinned returns the request verbatim only when there is no pinned track, or the request equals the track, or starts with track+\"/\"; otherwise it returns the track, track+\"/\"+request, or an error; (R2) ParseVerbatim assigns the components to (track, risk, branch) by the fixed table 3:(0,1,2) 2:risk-first?(-,0,1):(0,1,-) 1:risk?(-,0,-):(0,-,-), and every place in the package that classifies a name as risk-first looks at component 0 (Full, ParseVerbatim, Resolve, ResolvePinned agree); (R3) Clean never yields track \"latest\" nor an empty risk and builds Name from the very track/risk it returns; (R4) Full adds \"latest/\" exactly to risk-first names and \"/stable\" exactly to single non-risk components; (R5) Resolve returns the request without the current track only when the request is not risk-first or there is no current track; (R6) snapstate.resolveChannel returns the old channel only for an empty request, resolves through channel.Resolve only when no track is pinned for this snap (kernel track for the model's kernel, gadget track for its gadget) and otherwise returns ResolvePinned's verdict, translating ErrPinnedTrackSwitch into an error.",
-		NotDecided: "idempotence Parse(Parse(s).String()) == Parse(s) and Full's output format for every input string (value-level); other callers of ResolvePinned (seed writer).",
-		Run:        runC34,
+		NotDecided:  "idempotence Parse(Parse(s).String()) == Parse(s) and Full's output format for every input string (value-level); other callers of ResolvePinned (seed writer).",
+		Run:         runC34,
 	})
 }
 
@@ -221,7 +221,9 @@ func runC34(c *Ctx) {
 	c.Rule("C34-R4", "W+G", "Full: \"latest/\" is added exactly to risk-first names, \"/stable\" exactly to a single non-risk component", 3)
 	full := P.Func(pkg + ".Full")
 	comps := VRes(0, ToFn(P.FuncObj("strings.FieldsFunc")))
-	clen := func(k int64) Atom { return Cmp(fmt.Sprintf("len(components)==%d", k), VLen(comps), token.EQL, VConstInt(k)) }
+	clen := func(k int64) Atom {
+		return Cmp(fmt.Sprintf("len(components)==%d", k), VLen(comps), token.EQL, VConstInt(k))
+	}
 	join := P.FuncObj("strings.Join")
 	n = 0
 	for _, lf := range ReturnLeaves(full, 0) {
@@ -336,13 +338,50 @@ func runC34(c *Ctx) {
 			c.Violated(key+"-other", lf.Pos(), "resolveChannel returns a channel that is neither the old channel (empty request), channel.Resolve's nor channel.ResolvePinned's result")
 		}
 	}
-	// for `return channel.Resolve(...)` the results are returned as a tuple: handle that form too
-	for _, r := range ReturnsOf(rc) {
-		if len(r.Results) == 0 {
-			continue
-		}
-		if cc, idx, ok := CallResult(r.Results[0]); ok && idx == 0 && ToFn(resolve)(cc) {
-			_ = cc
+	// ---- R7
+	c.Rule("C34-R7", "G", "every caller of resolveChannel / RevisionOptions.resolveChannel fails when the request is refused; RevisionOptions.resolveChannel skips resolution only for a revision without a channel", 6)
+	rcObj := P.FuncObj(spkg + ".resolveChannel")
+	roObj := P.FuncObj(spkg + ".(*RevisionOptions).resolveChannel")
+	for _, obj := range []*types.Func{rcObj, roObj} {
+		idx := obj.Type().(*types.Signature).Results().Len() - 1
+		for _, u := range P.UsesOf(obj) {
+			cc, ok := u.Instr.(ssa.CallInstruction)
+			if !ok || u.Fn == nil {
+				c.Undecided(spkg+"."+obj.Name()+"#used-as-value", obj.Pos(), obj.Name()+" is used other than by a direct call")
+				continue
+			}
+			c.CheckErrPropagated(fmt.Sprintf("%s#%s-refusal-propagated@%s", SSAFuncName(u.Fn), obj.Name(), calleeOrd(u.Fn, cc, obj)), u.Fn, cc, idx, obj.Name())
 		}
 	}
+	ro := P.Func(spkg + ".(*RevisionOptions).resolveChannel")
+	fROChan := P.Field(spkg + ".RevisionOptions.Channel")
+	n = 0
+	for _, r := range ReturnsOf(ro) {
+		if !IsSuccessReturn(r) {
+			continue
+		}
+		n++
+		c.Guarded(fmt.Sprintf("%s.RevisionOptions.resolveChannel#accepts#%d", spkg, n), ro, r,
+			[]Clause{{OkCall("resolveChannel ok", rcObj), Cmp("r.Channel==\"\"", VField(fROChan), token.EQL, VConstStr(""))}}, nil)
+	}
+	okStore := false
+	for _, st := range StoresToField(ro, fROChan) {
+		if VRes(0, ToFn(rcObj))(st.Val) {
+			okStore = true
+		}
+	}
+	c.Check(okStore, spkg+".RevisionOptions.resolveChannel#resolved-channel-stored", ro.Pos(), "r.Channel = resolved", "the resolved channel is not stored back into the revision options")
+	for i, cc := range CallSites(ro, rcObj) {
+		c.Check(VField(fROChan)(cc.Common().Args[2]), fmt.Sprintf("%s.RevisionOptions.resolveChannel#resolves-the-request#%d", spkg, i+1), cc.Pos(), "resolveChannel(..., r.Channel, ...)", "the channel resolved is not the requested one")
+	}
+}
+
+// calleeOrd: ordinal of call cc among fn's calls of obj (stable key without line numbers)
+func calleeOrd(fn *ssa.Function, cc ssa.CallInstruction, obj *types.Func) string {
+	for i, x := range CallSites(fn, obj) {
+		if x == cc {
+			return fmt.Sprintf("%d", i+1)
+		}
+	}
+	return "?"
 }
